@@ -259,3 +259,22 @@ Proof.
   split; [vm_compute; reflexivity|]. split; [reflexivity|]. split; [intros i _; apply nth_repeat|].
   split; [vm_compute; eexists; eexists; reflexivity|vm_compute; discriminate].
 Qed.
+
+(* ---- serialisation: BrotliStoreHuffmanTree without the premise on the inner retry loop ----------
+   C17_store_complex_partial assumed that the retry loop of the 18-symbol code length code's own
+   tree ran at most 27 times.  By C17_tree that loop exits after at most ceil(log2 704) = 10
+   doublings whenever the scratch tree array has the 2 * 18 + 1 nodes the builder needs (the
+   encoder passes 2 * 704 + 1), so the premise is replaced by that bound on the array.  Still
+   "returns => correct": that BrotliStoreHuffmanTree itself never panics is not proved here. *)
+From V Require Import proofs.Complex_total.
+
+Theorem C17_store_complex : forall depths asz pool out out' pool' rr r,
+  wf_depths depths -> kraft depths = kraft_one ->
+  N.of_nat (length depths) <= 704 -> N.of_nat (length depths) <= asz ->
+  (37 <= length pool)%nat ->
+  store_huffman_tree depths (N.of_nat (length depths)) pool out = Done (out', pool', rr) ->
+  exists bs, out' = out ++ bs /\
+    rfc_read_prefix_code asz (bs ++ r) =
+    Some ({| pc_lengths := depths ++ zeros (asz - N.of_nat (length depths)); pc_single := None |}, r).
+Proof. exact store_complex_pool. Qed.
+Print Assumptions C17_store_complex.
